@@ -36,6 +36,17 @@ Exhausted == pc = "loop" /\ k > Len(vin.pos) /\ pc' = "done" /\ UNCHANGED <<vin,
 VecNext == Skip \/ EmitZero \/ EmitOne \/ Exhausted
 Done == pc = "done"
 
+\* the same loop as one recursive operator (used where a whole vector is needed inside another specification: Seeding's
+\* refinement window); MC_Vectorise checks that it agrees with the state machine on every input (Inv_VecFun)
+RECURSIVE VecRun(_, _, _, _)
+VecRun(in, w, kk, acc) ==
+    IF kk > Len(in.pos) THEN acc
+    ELSE IF in.pos[kk] < w THEN VecRun(in, w, kk + 1, acc)
+    ELSE IF in.pos[kk] >= w + in.res
+         THEN (IF w + in.res > EffEnd(in) THEN Append(acc, 0) ELSE VecRun(in, w + in.res, kk, Append(acc, 0)))
+         ELSE VecRun(in, w + in.res, kk + 1, Append(acc, 1))
+VecFun(in) == VecRun(in, in.start, 1, <<>>)
+
 -----------------------------------------------------------------------------
 (* blur: OR of the vector with itself shifted by 1..radius in both directions, truncated to the length *)
 BlurImpl(v, r) ==
@@ -44,6 +55,10 @@ BlurImpl(v, r) ==
         left(sh)  == [i \in 1..(IF n > sh THEN n - sh ELSE 0) |-> v[i + sh]]     \* vector[shift:]
         right(sh) == [i \in 1..(n + sh) |-> IF i <= sh THEN 0 ELSE v[i - sh]]     \* shift * [0] + vector
     IN [i \in 1..n |-> IF v[i] = 1 \/ \E sh \in 1..r : at(left(sh), i) = 1 \/ at(right(sh), i) = 1 THEN 1 ELSE 0]
+
+\* the same function without building the shifted copies (used on long vectors by Seeding.tla); MC_Vectorise checks
+\* BlurFast = BlurImpl on every vector it enumerates (Inv_BlurFast)
+BlurFast(v, r) == [i \in 1..Len(v) |-> IF \E j \in (i - r)..(i + r) : j >= 1 /\ j <= Len(v) /\ v[j] = 1 THEN 1 ELSE 0]
 
 \* toRelativeGenomicPositions
 CeilHalf(res) == (res + 1) \div 2
